@@ -173,7 +173,13 @@ def execute(scn):
         probs_real, obs_real = hooksim.run_history(scn, st2, real_process=True)
         stats.inc("histories_cross_validated_with_real_processes")
         stats.inc("real_process_runs", st2.get("real_process_runs"))
-        if not probs and not probs_real and obs_real != obs_soft:
+        def canon_obs(obs):
+            # inside a concurrent-import section the ORDER of the loads depends on the schedule, and the schedule on how warm the
+            # process is (a fresh interpreter executes more lines of the hook on first use): such runs are compared as multisets
+            return [sorted(map(repr, o)) if any(op_["op"] == "par" for op_ in run_["ops"]) else o
+                    for o, run_ in zip(obs, scn["runs"])]
+
+        if not probs and not probs_real and canon_obs(obs_real) != canon_obs(obs_soft):
             from ..core import HarnessError
 
             raise HarnessError(f"soft restart diverges from real processes (seed {scn['seed']}): soft={obs_soft} real={obs_real}")
